@@ -906,6 +906,16 @@ class Gen:
                 els = [("body", body_el)] + [("header", new_element(elem_files)) for _ in range(nheaders)]
                 hdrs = [g for role, g in els if role == "header"]
                 others = [j for j in set(f0.imports) | {0} if hdrs and j != hdrs[0].file]
+                if len(hdrs) >= 2 and not reuse_part_names and (hdrs[0].anonymous or not hdrs[0].type.builtin) \
+                        and _random.Random("hdr-same-element:" + hdrs[0].name.xml).random() < self.cfg.get("p_headers_share_element", 0.0):
+                    # two header parts (primaryToken, backupToken) that carry the same global element. Only in requests and only for
+                    # an element that becomes a struct: yaserde 0.12 cannot tell two members of one name apart when it reads, and
+                    # its derive does not compile two members of one name that need a visitor (built-in types) (DESIGN §10)
+                    k = next(i for i, (role, g) in enumerate(els) if g is hdrs[1])
+                    els[k] = ("header", hdrs[0])
+                    hdrs[1] = hdrs[0]
+                    others = []
+                    self.features.add("two-header-parts-of-one-element")
                 if len(hdrs) >= 2 and others and _random.Random("hdr-namesake:" + hdrs[0].name.xml).random() < self.cfg.get("p_header_namesakes", 0.0):
                     # two header elements with one local name, in two namespaces (c:Context and tns:Context)
                     fj = _random.Random("hdr-namesake-file:" + hdrs[0].name.xml).choice(sorted(others))
